@@ -32,6 +32,8 @@ TOL = 0.0022
 def generate(rng, tier):
     t1 = rng.choice(["_http._tcp.local.", "_ipp._tcp.local."])
     svc = gen_services(rng, 1, types=[t1], hosts=["hostr.local."], custom_ttl=rng.random() < 0.4, prefix="Name")[0]
+    if rng.random() < 0.3:
+        svc.pop("server")  # ServiceInfo without server=: the host name defaults to the (final) instance name
     base = svc["name"][: -len(t1) - 1]
     mode = rng.choice(["none", "scripted", "scripted", "scripted", "real", "preload"])
     allow = rng.random() < 0.6
@@ -88,6 +90,10 @@ def generate(rng, tier):
         ops.append({"t": round(rng.choice([0.01, t_reg - 0.4, t_reg - 0.1, t_reg + 0.01]), 6), "op": "register", "h": "H",
                     "svc": other})
     ops.append({"t": t_reg, "op": "register", "h": "R", "svc": svc, "allow_name_change": allow})
+    if rng.random() < 0.2:
+        # the registrant's process is descheduled for a while during probing or announcing
+        ops.append({"t": round(t_reg + rng.choice([0.05, 0.12, 0.17, 0.2, 0.3, 0.36, 0.5]), 6), "op": "stall", "h": "R",
+                    "dur": rng.choice([0.03, 0.1, 0.18, 0.3, 0.5])})
     if rng.random() < 0.25:
         # the same instance registers the same name again later
         ops.append({"t": round(t_reg + rng.choice([1.5, 2.0, 3.0]), 6), "op": "register", "h": "R", "svc": svc,
@@ -307,14 +313,21 @@ def _oracle(w, drv, sc, hm, stats, out):
             continue
         fin = seq[-1][1]
         s0 = fin[0]
-        okp = len(fin) == 3 and all(abs(fin[k] - (s0 + k * CHECK)) <= TOL for k in range(3)) and abs(t_done - fin[-1]) <= TOL
+
+        def stalled(a, b):
+            # time within [a, b] during which the registrant's process was descheduled: lateness it is not to blame for
+            return sum(max(0.0, min(b, y) - max(a, x)) for x, y, hn in drv.stalls if hn == "R")
+
+        okp = len(fin) == 3 and abs(t_done - fin[-1]) <= TOL + stalled(fin[-1], t_done) and all(
+            CHECK - TOL <= fin[k] - fin[k - 1] <= CHECK + TOL + stalled(fin[k - 1], fin[k]) for k in (1, 2))
         stats["probe_sets_checked"] += 1
         out.nontrivial = True
         if not okp:
             out.add("C09.probe-schedule", f"final name {final}: probes at {[round(x - s0, 4) for x in fin]} s after the "
                     f"first (expected 0, 0.175, 0.350) and registration returned {t_done - s0:.4f} s after it", n=len(fin))
         for nm, ts in seq[:-1]:
-            if len(ts) > 2 or any(abs(ts[k] - (ts[0] + k * CHECK)) > TOL for k in range(len(ts))):
+            if len(ts) > 2 or any(not CHECK - TOL <= ts[k] - ts[k - 1] <= CHECK + TOL + stalled(ts[k - 1], ts[k])
+                                  for k in range(1, len(ts))):
                 out.add("C09.probe-schedule", f"abandoned name {nm}: probes at {[round(x - ts[0], 4) for x in ts]}")
         # candidate chain: orig, -2, -3 ... final
         chain = [orig]
@@ -341,10 +354,13 @@ def _oracle(w, drv, sc, hm, stats, out):
         recs = SvcRecords(dict(svc, name=final))
         want = {(r.ident(), r.ttl, r.flush) for r in recs.all()}
         socks_a = sorted({tx.sock for tx in rtx if tx.multicast and tx.msg.is_response})
+        ta = t_last_probe
         for k3 in range(3):
-            ta = t_last_probe + k3 * ANN
-            hit = [tx for tx in rtx if tx.multicast and tx.msg.is_response and abs(tx.t - ta) <= TOL and
+            hit = [tx for tx in rtx if tx.multicast and tx.msg.is_response and
+                   -TOL <= tx.t - ta <= TOL + stalled(ta - TOL, tx.t) and
                    {(r.ident(), r.ttl, r.flush) for r in tx.msg.answers} == want]
+            if hit:
+                ta = min(tx.t for tx in hit) + ANN
             if not hit:
                 near = [tx for tx in rtx if tx.multicast and tx.msg.is_response and abs(tx.t - ta) <= 0.05]
                 out.add("C09.announcement", f"{final}: announcement {k3 + 1} expected at {ta - t0:.6f} with PTR, SRV, TXT, all "
@@ -361,7 +377,9 @@ def _oracle(w, drv, sc, hm, stats, out):
             for tx in rtx:
                 if tx.t < t_call or tx.t >= t_next or not tx.msg.is_response:
                     continue
-                if any(r.ident() in bad_ids and r.ttl > 0 for r in tx.msg.records()):
+                if any(r.ttl > 0 and (r.ident() in bad_ids or r.name.lower() == nm.lower() or
+                                      (r.type == wire.T_SRV and r.rdata[3].lower() == nm.lower()))
+                       for r in tx.msg.records()):
                     out.add("C09.contested-name-used", f"{nm} was contested but the registrant sent {tx.msg!r} at "
                             f"{tx.t - t0:.6f}"[:300])
                     break
